@@ -12,7 +12,7 @@ import numpy as np
 import z3
 
 from pyvc.contract import FunctionContract, Lemma, VC, Req
-from pyvc.sym import And, Or, Not, Implies, If, is_sym, Sym, lift, PyRaise, Unsupported
+from pyvc.sym import And, Or, Not, Implies, If, is_sym, Sym, lift, PyRaise, Unsupported, compare
 from pyvc.values import Obj
 
 PROPERTY_ID = "C08"
@@ -315,8 +315,27 @@ class PoolSeeding(Lemma):
             cfg = vc.obj(CF + "ConfigurationMultiLevel", nb_of_processes=nproc, control_variates=vc.obj("rpylib.product.product:NoControlVariates"), seed=vc.int("seed"))
             pm = vc.obj("rpylib.montecarlo.path:MLMCPath")
             stats = vc.obj("rpylib.montecarlo.statistic.statistic:MLMCStatistics", mc_statistics=[None, None])
-            eng = vc.obj(ME + "Engine", configuration=cfg, path_managers=[pm, pm])
-            vc.method(eng, "compute_level_l", 1, 0, 3, vc.obj(CP), vc.obj("rpylib.product.product:Product"), 1.0, stats)
+            eng = vc.obj(ME + "Engine", configuration=cfg, path_managers=[pm, pm, pm])
+            # a task that re-seeds the generators itself is recorded with the value it seeds with
+            import random as _random
+            it.native_hooks = dict(getattr(it, "native_hooks", None) or {})
+            it.native_hooks[id(np.random.seed)] = lambda it_, s_=None: ev(("reseed", "numpy", s_))
+            it.native_hooks[id(_random.seed)] = lambda it_, s_=None: ev(("reseed", "random", s_))
+            it.opaque_hooks["random.seed"] = lambda it_, s_=None: ev(("reseed", "random", s_))
+            cp_, prod_ = vc.obj(CP), vc.obj("rpylib.product.product:Product")
+            vc.method(eng, "compute_level_l", 1, 0, 3, cp_, prod_, 1.0, stats)
+            first_pass = list(log)
+            # "across paths, passes, levels": the same level is extended by a second pass, and the next level is started
+            vc.method(eng, "compute_level_l", 1, 3, 3, cp_, prod_, 1.0, stats)
+            stats2 = vc.obj("rpylib.montecarlo.statistic.statistic:MLMCStatistics", mc_statistics=[None, None, None])
+            vc.method(eng, "compute_level_l", 2, 0, 3, cp_, prod_, 1.0, stats2)
+            reseeds = [e[2] for e in log if e[0] == "reseed" and e[1] == "numpy"]
+            distinct = True
+            if reseeds:
+                terms = [lift(v) for v in reseeds]
+                distinct = And(*[Not(compare(a_, b_, "==")) for i_, a_ in enumerate(terms) for b_ in terms[i_ + 1:]]) if all(v is not None for v in reseeds) else False
+            vc.check(nm + "::no-task-re-seeds-the-generator-to-a-state-another-task-of-the-run-starts-from", distinct)
+            del log[len(first_pass):]
         starts = [i for i, e in enumerate(log) if e[0] == "worker-start"]
         seeds = [e for e in log if e[0] == "seed"]
         first_task = next((i for i, e in enumerate(log) if e[0] == "task"), len(log))
@@ -336,6 +355,8 @@ class PoolSeeding(Lemma):
         vc.check(nm + "::every-task-draws-its-own-pre-computed-variates-before-its-path", ok)
 
     def replay(self, model, clause, which):
+        if "no-task-re-seeds" in clause:
+            return RepeatabilityBattery.pool_multilevel(seed=123)
         bad, info = RepeatabilityBattery.pool(seed=5, model="hem")
         return (bad, info)
 
@@ -428,6 +449,11 @@ class MultilevelSeedsOnce(Lemma):
 
 
 UNITS = [SeedSemantics(), StandardEngineSeedOrder(), MultilevelLevelRoutine(), MultilevelSeedsOnce(), PoolSeeding(), DrawsAreGlobal()]
+def LATE_UNITS():
+    # "pre-drawn Brownian increments and jump counts": every stored jump count / increment of the fixed-date simulation is
+    # its own draw, per path and per interval (the contract lives with the simulation, c15)
+    from contracts import c15
+    return [c15.FixedDatesPreComputation()]
 ASSUMPTIONS = ["a seeded generator is a deterministic function of the seed and of the number of draws made since (numpy / random contract)",
                "simulate_one_path / pre_computation are the only consumers of the global generators (draws inside them are one ledger event)"]
 TRUSTED_BASE = ["pyvc interpreter (ledger events are produced by hooks on the real call sites)", "z3 5.1"]
@@ -485,6 +511,44 @@ class RepeatabilityBattery:
             rows = np.ravel(st._payoff_statistics.stats)
             u, c = np.unique(np.round(rows, 12), return_counts=True)
             return (bool(c.max() > 1), {"model": model, "configured_seed": seed, "worker_processes": 2, "paths": 40, "distinct_payoffs": int(len(u)), "largest_multiplicity": int(c.max())})
+
+    @staticmethod
+    def pool_multilevel(seed=123):
+        """adaptive multilevel run with 2 worker processes: the payoff is a continuous function of the simulated spot, so every
+        level must hold as many distinct fine payoffs as it has samples, all passes taken together"""
+        import warnings
+        import logging
+        with warnings.catch_warnings():
+            warnings.simplefilter("ignore")
+            logging.disable(logging.WARNING)
+            try:
+                from rpylib.distribution.sampling import SamplingMethod
+                from rpylib.grid.spatial import CTMCUniformGrid
+                from rpylib.model.utils import create_exponential_of_levy_model, ModelType
+                from rpylib.montecarlo.configuration import ConfigurationMultiLevel, compute_convergence_rates
+                from rpylib.montecarlo.multilevel.engine import Engine
+                from rpylib.process.coupling.couplingmarkovchain import CouplingMarkovChain
+                from rpylib.product.payoff import Forward
+                from rpylib.product.product import Product
+                from rpylib.product.underlying import Spot
+                model = create_exponential_of_levy_model(ModelType.HEM)(spot=100.0, r=0.05, d=0.02, sigma=0.1, p=0.6, eta1=25.0, eta2=40.0, intensity=5.0)
+                grid = CTMCUniformGrid(h=0.2, model=model)
+                product = Product(Spot(), Forward(strike=100.0), 0.25)
+                cfg = ConfigurationMultiLevel(convergence_rates=compute_convergence_rates(model.blumenthal_getoor_index()), initial_level=2, maximum_level=3,
+                                              initial_mc_paths=50, seed=seed, nb_of_processes=2)
+                try:
+                    st = Engine(cfg, CouplingMarkovChain(model=model, method=SamplingMethod.ALIAS, grid=grid)).price(product, 0.5)
+                except Exception as e:
+                    return (False, {"skipped": f"worker pool not available here: {type(e).__name__}: {e}"})
+                info, bad = {"configured_seed": seed, "worker_processes": 2, "levels": []}, False
+                for level, n in enumerate(st.mlmc_results.Nl):
+                    fine = st.mc_statistics[level]._payoff_statistics.stats[:, 0, 0]
+                    distinct = int(len(np.unique(fine)))
+                    info["levels"].append({"level": level, "samples": int(n), "distinct_fine_payoffs": distinct})
+                    bad = bad or distinct != len(fine)
+                return (bool(bad), info)
+            finally:
+                logging.disable(logging.NOTSET)
 
     def replay(self, rec):
         r = self.run("quick", 0)
